@@ -19,7 +19,7 @@ func init() {
 			"R2: a node is handed back to the pool only on an edge where its reference count is tested to be zero (or <=0) and after the unlink routine was applied to it on every path. " +
 			"R3: Add pairs the list append with the index store, Remove pairs the unlink with the index delete. " +
 			"R4: Iterator() increments the reference count of the node it starts from and stores that node in the iterator; Close() calls the release routine exactly once and clears the pointer. " +
-			"R5: in the advance routine every new cursor value gets a reference (+1) on its incoming path and the old cursor loses one (-1) before.",
+			"R5: in the advance routine every new cursor value gets a reference (+1) on its incoming path and the old cursor loses one (-1) before, also between two consecutive steps. R6: payload is read only from live nodes; R7: cursor routines get only iterator cursors; R8: links are written only by node methods; R9: the unlink routine reports nil or its own successor as new head; R10: release drops its reference before testing the count.",
 		NotDecided: "order and liveness of what an iterator returns over all histories (a value statement); the list pointer surgery inside the unlink routine.",
 	})
 	register(&Check{
@@ -28,7 +28,7 @@ func init() {
 		Run:       runC11,
 		Technique: "static analysis: typestate (acquire/close on all paths) over go/ssa for every iterable.Iterator obtained inside library code, plus the C10 head-propagation rule",
 		Explanation: "R1: every value of an iterable.Iterator type obtained by a call of Map.Iterator in non-test library code, and neither returned nor stored into a field, is closed (defer or explicit) on every path to a normal exit. " +
-			"R2 (=C10.R1): the unlink result is propagated to the head at every call site, otherwise a stuck head pins every removed node behind it.",
+			"R2 (=C10.R1): the unlink result is propagated to the head at every call site, otherwise a stuck head pins every removed node behind it. R3: cursor routines are applied only to iterator cursors. M1-M10: the reference counting and list rules of C10. R4: every insert of the LRU cache is followed by the capacity test in the same critical section (C09.R4).",
 		NotDecided: "the numeric retention bound and the cost growth; leaks through iterators that user code forgets to close.",
 	})
 }
@@ -355,6 +355,16 @@ func mapRules(c *Ctx, pfx string) {
 					"the cursor gives up its reference and the node it moves to is not referenced")
 			}
 		})
+		// between two references taken there is always one given back
+		ir.Instrs(fn, func(in ssa.Instruction) {
+			if _, ok := isFieldDelta(in, r.refCnt, 1); !ok {
+				return
+			}
+			c.NoPath(pfx+"5", "ref+1 to ref+1 passes ref-1", in, ir.Query{Fn: fn, From: in,
+				Block:  func(x ssa.Instruction) bool { _, ok := isFieldDelta(x, r.refCnt, -1); return ok },
+				Target: func(x ssa.Instruction) bool { _, ok := isFieldDelta(x, r.refCnt, 1); return ok }},
+				"the cursor takes a reference on a further node without giving back the one it held on the node it leaves: that node keeps a phantom reference and is never unlinked")
+		})
 		if incs == 0 || decs == 0 {
 			c.Decide(pfx+"5", fn, "advance keeps reference counts", nil, false, "the advance routine has no reference count increment/decrement")
 		}
@@ -362,6 +372,56 @@ func mapRules(c *Ctx, pfx string) {
 	c.R.Floor(pfx+"5", 2)
 	c.payloadAndCursorDiscipline(r, pfx+"6", pfx+"7")
 	c.linkCensus(r, pfx+"8")
+	// R9 the unlink routine reports as new head nil or its own successor
+	for _, ret := range ir.Returns(r.unlink) {
+		ok := true
+		for _, o := range phiClosure(ir.Resolve(ret.Results[0])) {
+			if ir.IsNilConst(o) {
+				continue
+			}
+			base, isNext := ssa.Value(nil), false
+			if u, isU := ir.Resolve(o).(*ssa.UnOp); isU {
+				if fa, isFA := u.X.(*ssa.FieldAddr); isFA && namedOf(fa.X.Type()) == r.node {
+					base, isNext = fa.X, true
+				}
+			}
+			if !isNext || len(r.unlink.Params) == 0 || ir.Resolve(base) != ssa.Value(r.unlink.Params[0]) {
+				ok = false
+			}
+		}
+		c.Decide(pfx+"9", r.unlink, "new head is nil or the unlinked node's successor", ret, ok, "the unlink routine reports another node than its own successor as new head: the skipped node stays linked without predecessor while head points past it, a later unlink of the head goes through the middle branch and head dangles")
+	}
+	// R10 release drops its own reference before it tests whether the node is free
+	{
+		fn := r.release
+		var dec ssa.Instruction
+		ir.Instrs(fn, func(in ssa.Instruction) {
+			if _, ok := isFieldDelta(in, r.refCnt, -1); ok {
+				dec = in
+			}
+		})
+		if dec == nil {
+			c.Decide(pfx+"10", fn, "release gives the reference back", nil, false, "the release routine does not decrement the reference count")
+		} else {
+			ir.Instrs(fn, func(in ssa.Instruction) {
+				bo, ok := in.(*ssa.BinOp)
+				if !ok {
+					return
+				}
+				if _, isCmp := ir.AsCmp(bo); !isCmp {
+					return
+				}
+				if _, isCnt := loadOfField(bo.X, r.refCnt); !isCnt {
+					return
+				}
+				if _, isC := ir.ConstInt(bo.Y); !isC {
+					return
+				}
+				ld, _ := ir.Resolve(bo.X).(ssa.Instruction)
+				c.Decide(pfx+"10", fn, "reference count tested after the own reference was dropped", in, ld != nil && ir.Dominates(dec, ld), "the release routine tests the reference count before it has dropped the closing iterator's own reference: the unlink branch is never taken and the removed node stays linked")
+			})
+		}
+	}
 }
 
 func runC11(c *Ctx) {
@@ -432,6 +492,10 @@ func runC11(c *Ctx) {
 	}
 	c.R.Floor("C11.R1", 1)
 	c.payloadAndCursorDiscipline(r, "", "C11.R3")
+	// M: nothing is retained only if the reference counts balance and the list stays consistent (rules of C10)
+	mapRules(c, "C11.M")
+	// R4: the cache holds at most its capacity: the capacity rule of C09
+	lruCapacityRule(c, resolveLRURoles(c), "C11.R4")
 }
 
 // hasLoop reports whether fn's CFG has a back edge.
